@@ -90,6 +90,37 @@ theorem top_level_history_is_run (s : Stk) (ops : List Op) :
     simp [put, find, this]
   · rw [h3, g2, hr.2]
 
+/-- `State::holding::<Populations>` at any scope depth.  Whichever registry of the chain owns the stack (the current one
+or any enclosing one), editing the stack while it is held — any history of stack operations, closure returning `Ok` or
+`Err` — leaves every registry where it was, puts the edited stack back into the registry that owned it, and the edited
+stack, every return value and the result are those of the same history on a plain stack. -/
+theorem holding_returns_the_stack_to_its_owner (c : Chain) (s : Stk) (ok : Bool) (ops : List Op)
+    (h : find c = some s) :
+    (execItem c (.hold ok ops)).1 = put c (run s ops).1 ∧
+    (execItem c (.hold ok ops)).1.length = c.length ∧
+    find (execItem c (.hold ok ops)).1 = some (run s ops).1 ∧
+    abs (run s ops).1 = (specRun (abs s) ops).1 ∧
+    opOuts (execItem c (.hold ok ops)).2.1 = (specRun (abs s) ops).2 ∧
+    (execItem c (.hold ok ops)).2.2 = ok := by
+  have hr := run_refines s ops
+  refine ⟨by simp [execItem, h], by simp [execItem, h, put_length], ?_, hr.1, ?_, by simp [execItem, h]⟩
+  · simp only [execItem, h]; exact find_put c s _ h
+  · simp only [execItem, h]; split <;> simp [opOuts, opOuts_map_out, hr.2]
+
+/-- … in particular from inside scopes: after a scope (of any kind that runs its body, at any depth below the owner of
+the stack) whose body held the stack and edited it, the caller finds the edited stack where it was, and every later
+operation of the caller answers as the plain stack does. -/
+theorem holding_inside_a_scope_keeps_the_callers_stack (c : Chain) (s : Stk) (k : Kind) (ok : Bool) (ops : List Op)
+    (rest : Items) (h : find c = some s) (hk : k.runsBody = true) :
+    (execItem c (.scope k (.cons (.hold ok ops) rest))).1.length = c.length ∧
+    ∃ s', find (execItem c (.scope k (.cons (.hold ok ops) rest))).1 = some s' ∧
+      abs s' = (specItems (specRun (abs s) ops).1 (if ok then rest else .nil)).1 ∧
+      ∀ op, (stepC (execItem c (.scope k (.cons (.hold ok ops) rest))).1 op).2 = (specStep (abs s') op).2 := by
+  obtain ⟨h1, _, s', h3, h4, h5⟩ := state_survives_failing_scope c s k (.cons (.hold ok ops) rest) h
+  refine ⟨h1, s', h3, ?_, h5⟩
+  rw [h4]
+  cases ok <;> simp [specItem, specItems, hk]
+
 /-! Non-vacuity: concrete programs with failing steps at depth 1..3. -/
 def p1 : Pop := [C04.ev 1, C04.ev 2]
 def p2 : Pop := [C04.ev 3]
@@ -110,5 +141,11 @@ example : (specItems [] (.cons (.op (.push p1)) .nil)).2.2 = true ∧
     (specItem [p1] (.failing (.push p2))).2.2 = false := by decide
 example : (specItem [p1] (.scope .mergeFail (.cons (.op (.push p2)) .nil))) = ([p2, p1], [.sErr, .out .ok], false) := by
   decide
+/-- the stack is owned two registries up; held, edited and read inside two scopes -/
+example : find [none, none, some [p1]] = some [p1] ∧ Kind.comp.runsBody = true := by decide
+example : (execItem [none, some [p1]] (.scope .comp (.cons (.hold true [.push p2, .rot 2, .edit (.push (C04.ev 9))])
+    (.cons (.op .len) .nil)))).1 = [none, some [p2, p1 ++ [C04.ev 9]]] := by decide
+example : (execItem [none, some [p1]] (.hold false [.pop, .tryPeek 0])) =
+    ([none, some []], [.sErr, .out (.pop p1), .out .none], false) := by decide
 
 end MahfModel.Props.C04Scope
